@@ -23,3 +23,40 @@ TEXT['C11'] = dict(
    technique='Coq proof: refinement of the two-key lazy-deletion store to a reference table over all histories, table invariants, search soundness/completeness; differential correspondence on exhaustive small-scope and random API histories under a virtual clock',
    level='Theorems in coq/Properties/C11.v hold for every history of database operations of any length, every non-decreasing clock, every candidate order, probe outcome/duration and cancellation point: the concrete store (two map keys per binding, lazy deletion, pointer comparison) returns exactly what the reference table returns; the table has at most one live binding per address and per client in every reachable state; an update succeeds iff it extends the own binding or creates one where both are free; expired entries are invisible, permanent ones persist; the search returns the own address, else the eligible suggestion, else an eligible range address, and fails only if none is eligible/disabled/cancelled. Tie to lib/server/ipdb: all 21 952 operation sequences of length 3 over a 28-operation alphabet plus random histories run on the real API inside testing/synctest each quick run.',
    note='Trusted: Coq kernel, extraction, driver, harness, hand-written model of ipdb/clients; the mutex makes each API call atomic (gofacts fact); rand.Perm order is validated not predicted.')
+
+_SRV_NOTE = ('Trusted: Coq kernel, extraction, driver, harness; hand-written model of lib/server/{run,netio,utils}.go and replies (coq/model/Server.v) over the '
+             'reference lease table of C11; each exported *IPDB method is one atomic step (gofacts fact gf_ipdb_methods_locked); testing/synctest virtual '
+             'clock; in-memory sockets and simulated ARP responders instead of AF_PACKET; the runs handle one packet at a time - interleavings are covered '
+             'by the theorems (which quantify over all histories of atomic database operations), not by the runs.')
+TEXT['C01'] = dict(
+   technique='Coq proof: lease-table invariant and exclusivity of the reservation log over ALL histories of atomic database operations (= all handler interleavings); acceptor + monitor on observed server histories',
+   level='coq/Properties/C01.v: for every history of OfferIP/HoldClient/UpdateClient/lookups with arbitrary arguments, clocks, candidate orders, probe outcomes (i.e. every interleaving of any number of handlers, retransmissions, spurious messages, pool exhaustion, expiry) a reservation of an address is only made strictly after every earlier reservation of it by another client has run out; the client key separates exactly the clients the property distinguishes. Tie: 300 (thorough 8000) random sequential server histories per run under a virtual clock are checked step by step against the executable model (frames byte for byte, live bindings after every packet) and mon_C01 (the property on the observed frames) is evaluated on them.',
+   note=_SRV_NOTE)
+TEXT['C02'] = dict(
+   technique='Coq proof: address-range invariant over all histories of grounded database operations, permanence/exclusivity of permanent bindings, identity non-forgeability; acceptor + monitor on observed histories',
+   level='coq/Properties/C02.v: every entry of every reachable lease table carries a configured static address or an address of the dynamic range; searches return the own address or a valid in-range one; permanent bindings (reservations, the server itself) are exclusive both ways; the internal identity cannot be forged; static_only disables searching. Tie as C01 with mon_C02 (yiaddr of every OFFER/ACK against the configuration).',
+   note=_SRV_NOTE)
+TEXT['C03'] = dict(
+   technique='Coq proof: permanent bindings persist and are exclusive over all histories; reserved clients always find their address; identity lemmas; acceptor + monitor',
+   level='coq/Properties/C03.v: after ANY history a reserved client (whatever identifier it sends) looks up and is offered exactly its reserved address, and a successful reservation is for that address iff it is by that client. Tie as C01 with mon_C03 (safety and the response clause on observed frames).',
+   note=_SRV_NOTE)
+TEXT['C04'] = dict(
+   technique='Coq proof by case analysis of the REQUEST verdict function over all addressing/option/binding values, lifted to the handler model; acceptor + monitor',
+   level='coq/Properties/C04.v: ACK only if the sender is bound to exactly the designated address (and the ACK carries it); other server / out-of-network / foreign unicast destination => silence; selecting this server or unicast renewal for an unbound in-network address => NAK; the handler model run against the implementation answers exactly as this function; ignored messages change nothing. Tie as C01 with mon_C04 (verdict per REQUEST against the previous live-binding snapshot).',
+   note=_SRV_NOTE)
+TEXT['C05'] = dict(
+   technique='Coq proof: reservation stability and hold-then-acknowledge over all histories (lease-table invariant), search completeness/suggestion theorems of C11; acceptor + monitor',
+   level='coq/Properties/C05.v: while an OFFER hold or a lease has not run out the client looks up that address, the final UpdateClient succeeds whatever other handlers did in between, every new search returns the same address, nobody else can obtain it; a search is silent only if no eligible address is left and returns an eligible suggestion; expired bindings are invisible. Tie as C01 with mon_C05 (clauses i and ii on observed frames).',
+   note=_SRV_NOTE)
+TEXT['C06'] = dict(
+   technique='Coq proof: reply envelopes recovered through the proved codec round trips (IPv4/UDP checksums, DHCP decode) for all xid/flags/addresses/hardware addresses; byte-exact comparison of every observed reply + monitor',
+   level='coq/Properties/C06.v: every OFFER/ACK/NAK the model emits decodes (RFC parsers of C12/C13) to a BOOTREPLY with echoed xid/chaddr/flags, server identifier, UDP 67->68, IPv4 source = server, destination and link-layer destination per broadcast flag, verifying checksums; at most one reply per message. Tie: every reply frame of every history is compared byte for byte with the model and mon_C06 checks the envelope with the independent decoders.',
+   note=_SRV_NOTE)
+TEXT['C08'] = dict(
+   technique='Coq proof of the probe semantics (who blocks, bounded duration), search results passed the probe, conflict => NAK; acceptor + monitor with simulated ARP responders',
+   level='coq/Properties/C08.v: only an answer with sender = probed address from a foreign hardware address inside the 3 x 200 ms windows blocks; own-address answers and silence do not; probes are bounded; every search result passed the probe; a REQUEST for a conflicting address is NAKed. Tie: ARP responders (foreign/own hardware address, delays inside and beyond the window) in the server histories; mon_C08.',
+   note=_SRV_NOTE + ' That the real ARP socket is open before the first answer can arrive is a runtime fact outside the model.')
+TEXT['C10'] = dict(
+   technique='Coq proof: panic freedom of every decoder for all byte strings, unhandled packets are a no-op of the handler model; malformed/junk frames interleaved into server histories + monitor',
+   level='coq/Properties/C10.v: no byte string makes the IPv4/UDP/ARP/DHCP decoders index outside their input; hlen > 16 is rejected; a packet that is not an IPv4/UDP BOOTREQUEST of type DISCOVER/REQUEST produces no reply and leaves the lease table unchanged. Tie: junk, truncated, non-UDP and other-type packets inside the server histories (a panic kills the harness and is reported), mon_C10 (no reply, snapshot unchanged). The client-side receive path is covered under C14.',
+   note=_SRV_NOTE)
